@@ -175,6 +175,8 @@ class Sim:
         self.consumed = [0] * self.n
         self.recv = [[] for _ in range(self.n)]        # (src, event)
         self.sent = [[] for _ in range(self.n)]        # (target, event)
+        self.wq = [[] for _ in range(self.n)]          # per inbox: contexts blocked in send().await, FIFO
+        self.rs = [[] for _ in range(self.n)]          # per inbox: waiters that were handed a freed slot
         self.ackq = []
         self.next_id = 1
         self.pending = None
@@ -187,7 +189,7 @@ class Sim:
                 self.sent[c] = list(sn["sent"])
 
     def room(self, c):
-        return len(self.inbox[c]) < self.cap
+        return len(self.inbox[c]) + len(self.rs[c]) < self.cap
 
     def can_ingress(self, e):
         t = route(self.prog, e[0])
@@ -207,15 +209,23 @@ class Sim:
                 e = self.outq[c][0]
                 t = route(self.prog, e[0])
                 if t is not None and t != c:
-                    if self.room(t):
+                    if c in self.rs[t]:
+                        self.rs[t].remove(c)
+                        self.inbox[t].append(("ev", c, e))
+                    elif c in self.wq[t]:
+                        break
+                    elif self.room(t):
                         self.inbox[t].append(("ev", c, e))
                     elif self.block:
+                        self.wq[t].append(c)
                         break
                     self.sent[c].append((t, e))
                 self.outq[c].pop(0)
                 outs.append(e)
             elif self.inbox[c]:
                 m = self.inbox[c].pop(0)
+                if self.wq[c]:
+                    self.rs[c].append(self.wq[c].pop(0))
                 if m[0] == "ev":
                     self.consumed[c] += 1
                     self.recv[c].append((m[1], m[2]))
@@ -227,7 +237,7 @@ class Sim:
         return outs
 
     def obs(self, r, outs):
-        return "r=%s;o=%s;i=%s" % (r, ",".join("%d:%d:%d" % (tyid(t), i, v) for t, i, v in outs), ",".join(str(len(x)) for x in self.inbox))
+        return "%s;%s;%s" % (r, ",".join("%d:%d:%d" % (tyid(t), i, v) for t, i, v in outs), ",".join(str(len(self.inbox[c]) + len(self.rs[c])) for c in range(self.n)))
 
     def consumed_str(self, cp):
         return ",".join(str(cp[c]["consumed"]) if cp and c in cp else "-" for c in range(self.n))
@@ -265,12 +275,12 @@ class Sim:
                         self.store.append(cp)
                         self.ncompleted += 1
                         self.last_cp = cp
-                        return self.obs("completed", []) + ";c=" + self.consumed_str(cp)
+                        return self.obs("completed", []) + ";" + self.consumed_str(cp)
             return self.obs("pending", [])
         if k == "restore":
             cp = self.store[-1] if self.store else None
             self.reset(cp)
-            return self.obs("restored", []) + ";c=" + self.consumed_str(cp)
+            return self.obs("restored", []) + ";" + self.consumed_str(cp)
         raise ValueError(k)
 
     def delivery_exact(self):
@@ -331,12 +341,12 @@ def impl_obs(prog, step_req, st):
     if k == "poll":
         r = r or "-"
     elif k == "complete" and "cp" in st:
-        extra = ";c=" + ",".join("-" if x is None else str(x) for x in st["cp"]["consumed"])
+        extra = ";" + ",".join("-" if x is None else str(x) for x in st["cp"]["consumed"])
     elif k == "restore":
         cons = r["consumed"] if isinstance(r, dict) else [None] * prog["n"]
-        extra = ";c=" + ",".join("-" if x is None else str(x) for x in cons)
+        extra = ";" + ",".join("-" if x is None else str(x) for x in cons)
         r = "restored"
-    return "r=%s;o=%s;i=%s%s" % (r, outs, inbox, extra)
+    return "%s;%s;%s%s" % (r, outs, inbox, extra)
 
 
 def impl_route_str(prog, ans):
@@ -375,7 +385,7 @@ def run_ref(binpath, jobs):
 
 def run_model(tag, cases):
     exprs = [g_case(c) for c in cases]
-    return coqtools.coq_eval(tag, IMPORTS, exprs, shard=max(8, len(exprs) // 12 + 1), timeout=1800)
+    return coqtools.coq_eval(tag, IMPORTS, exprs, shard=max(4, len(exprs) // 16 + 1), timeout=1800)
 
 
 def correspond(run, case, ans, model_str, what):
